@@ -3,7 +3,8 @@
 An int with |v| >= 2**31, or a finite float whose exact ratio does not fit, crosses as its exact binary
 expansion  ["x", [kind, sign, e, bits]]  =  sign * 2**e * (1.b2 b3 ...)_2 ,  kind "i" | "f", bits from the
 leading one to the last one.  Rendering only (Python's exact int / float.as_integer_ratio()): order and
-numeric equality of such numbers are decided by the specification.  Everything else is harness.enc.
+numeric equality of such numbers are decided by the specification.  A dict with a key that is not a string
+crosses as ["mk", [[key, value], ...]] (insertion order).  Everything else is harness.enc.
 """
 import math
 import numpy as np
@@ -25,7 +26,9 @@ def xtag(v, ids=None):
     if isinstance(v, list):
         return ["l", [xtag(x, ids) for x in v]]
     if isinstance(v, dict):
-        return ["m", [[str(k), xtag(x, ids)] for k, x in sorted(v.items())]]
+        if all(isinstance(k, str) for k in v):
+            return ["m", [[str(k), xtag(x, ids)] for k, x in sorted(v.items())]]
+        return ["mk", [[xtag(k, ids), xtag(x, ids)] for k, x in v.items()]]      # keys of any kind, in insertion order
     try:
         return enc.tag(v, ids)
     except OverflowError:
@@ -52,4 +55,5 @@ def xuntag(t, ids=None):
     if k == "t": return tuple(xuntag(x, ids) for x in p)
     if k == "l": return [xuntag(x, ids) for x in p]
     if k == "m": return {kk: xuntag(x, ids) for kk, x in p}
+    if k == "mk": return {xuntag(kk, ids): xuntag(x, ids) for kk, x in p}
     return enc.untag(t, ids)
